@@ -7,6 +7,7 @@ package flags
 import (
 	"fmt"
 	"reflect"
+	"sort"
 	"strconv"
 	"strings"
 	"time"
@@ -132,11 +133,12 @@ func convertToString(val reflect.Value, options multiTag) (string, error) {
 	case reflect.Map:
 		ret := "{"
 
-		for i, key := range val.MapKeys() {
-			if i != 0 {
-				ret += ", "
-			}
+		// Render the entries sorted by key so that the result does not
+		// depend on the map iteration order
+		keys := val.MapKeys()
+		items := make([]string, len(keys))
 
+		for i, key := range keys {
 			keyitem, err := convertToString(key, options)
 
 			if err != nil {
@@ -149,10 +151,12 @@ func convertToString(val reflect.Value, options multiTag) (string, error) {
 				return "", err
 			}
 
-			ret += keyitem + ":" + item
+			items[i] = keyitem + ":" + item
 		}
 
-		return ret + "}", nil
+		sort.Strings(items)
+
+		return ret + strings.Join(items, ", ") + "}", nil
 	case reflect.Ptr:
 		return convertToString(reflect.Indirect(val), options)
 	case reflect.Interface:
